@@ -55,16 +55,40 @@ def r1_results_page(ctx):
         ok_items = ok_items and L.only_param(o, 1) and not muts
         txt.append("%s, &mut borrows of it: %d" % (L.describe(o), len(muts)))
     ctx.check(R, "items-moved-unmodified", ok_items, "ResultsPage.items originates from %s" % "; ".join(txt), (f, aggs[0].bb))
-    # ---- last()
+    # ---- the last item and the test of its existence, by role: `items.last()` (its result tested as an Option), or the
+    # slice pattern `let [.., tail] = items.as_slice() else {..}` (the element at constant index 1 from the end, read
+    # after the test `len >= 1` of the same slice)
+    feas = L.Feas(f)
     lasts = [(bb, t) for bb, t in f.live_calls(LAST)]
+    reads = [(g, r) for g in fns for r in L.indexed_reads(g)]
+    tails = [r for g, r in reads if g is f and r[1] == "cidx" and r[2] == (1, True)]
     firsts = [t["callee"] for g in fns for bb, t in g.live_calls(r"slice::<impl \[T\]>::(first|get|split_first|first_chunk)$|ops::Index::index$")]
-    if len(lasts) != 1:
-        ctx.lost(R, "<[T]>::last(items) in ResultsPage::new (%d call sites; other element accessors: %s)" % (len(lasts), firsts))
+    firsts += ["[%s]" % ("computed index" if k == "idx" else "sub-slice" if k == "subslice" else "%s%d" % ("len-" if d[1] else "", d[0])) for g, (bb, k, d) in reads if g is not f or (k, d) != ("cidx", (1, True))]
+    if len(lasts) == 1 and not tails:
+        lbb, lt = lasts[0]
+        o, _ = L.trace(f, lt["args"][0], PLUMBING + VEC_VIEW)
+        tests = [(wbb, s_t, n_t) for wbb, s_t, n_t, optop in L.option_edges(f) if L.only_call(L.trace(f, optop, PLUMBING)[0], LAST, lbb, ())]
+        how = "last()"
+
+        def is_last_item(origins):
+            return L.only_call(origins, LAST, lbb, L.SOME_0)
+        item_through = PLUMBING
+    elif tails and not lasts:
+        lbb = tails[0][0]
+        # the slice the pattern is matched against: the element read is `items[len-1]`, the test measures `items`
+        o = [x for bb, k, d in tails for x in _slice_of_tail(f, bb)]
+        tests = [t for t in L.emptiness_tests(f, lambda og: L.only_param(og, 1), PLUMBING + VEC_VIEW)
+                 if all(feas.edge_dominates(t[0], t[1], bb) for bb, k, d in tails)]
+        how = "the slice pattern [.., x]"
+
+        def is_last_item(origins):
+            return len(origins) == 1 and origins[0].kind == "param" and origins[0].info["index"] == 1 and L._same(origins[0].proj, L.LAST_ELEM)
+        item_through = PLUMBING + VEC_VIEW
+    else:
+        ctx.lost(R, "<[T]>::last(items) in ResultsPage::new (%d call sites; %d slice-pattern reads of the last element; other element accessors: %s)" % (len(lasts), len(tails), firsts))
         return
-    lbb, lt = lasts[0]
-    o, _ = L.trace(f, lt["args"][0], PLUMBING + VEC_VIEW)
     ctx.check(R, "last-of-items", L.only_param(o, 1) and not firsts,
-              "receiver of last() originates from %s; other element accessors in the function: %s" % (L.describe(o), firsts), (f, lbb))
+              "receiver of %s originates from %s; other element accessors in the function: %s" % (how, L.describe(o), firsts), (f, lbb))
     # ---- the serialize call and the selector call feeding it
     sers = [(g, bb, t) for g in fns for bb, t in g.live_calls(c14.SER)]
     if len(sers) != 1 or sers[0][0] is not f:
@@ -83,18 +107,16 @@ def r1_results_page(ctx):
     if len(tup) != 1 or tup[0].kind != "agg" or tup[0].info.get("agg") != "tuple" or len(tup[0].info["fields"]) != 2:
         ctx.lost(R, "argument tuple (item, scan_params) of the selector call")
         return
-    o_item, _ = L.trace(f, tup[0].info["fields"][0], PLUMBING)
+    o_item, _ = L.trace(f, tup[0].info["fields"][0], item_through)
     o_scan, _ = L.trace(f, tup[0].info["fields"][1], PLUMBING)
     o_fn, _ = L.trace(f, ct["args"][0], PLUMBING)
-    ctx.check(R, "selector-item-is-the-last-item", L.only_call(o_item, LAST, lbb, L.SOME_0),
-              "selector's item argument originates from %s (must be the Some payload of last(items))" % L.describe(o_item), (f, cbb))
+    ctx.check(R, "selector-item-is-the-last-item", is_last_item(o_item),
+              "selector's item argument originates from %s (must be the Some payload of last(items) / the element [len-1] of items)" % L.describe(o_item), (f, cbb))
     ctx.check(R, "selector-and-scan-params-are-the-arguments", L.only_param(o_fn, 3) and L.only_param(o_scan, 2),
               "the selector function is %s, its second argument %s (must be new()'s get_page_selector and scan_params)" % (L.describe(o_fn), L.describe(o_scan)), (f, cbb))
     # ---- next_page, case by case of the test of last(items) (match / if let / let-else / the switch of a desugared map / map_or):
     # on the paths through its Some edge every value next_page can have is Some(Ok payload of serialize_page_token), on the paths
     # through its None edge it is None; `.transpose()?` is looked through; every page is built after the test
-    feas = L.Feas(f)
-    tests = [(wbb, s_t, n_t) for wbb, s_t, n_t, optop in L.option_edges(f) if L.only_call(L.trace(f, optop, PLUMBING)[0], LAST, lbb, ())]
     n_some = n_none = 0
     tok_ok = iff_ok = len(tests) == 1
     bad = []
@@ -152,6 +174,34 @@ def r1_results_page(ctx):
                   len(returned), [e["detail"] for e in unknown] or "none"), (f, split["switch_bb"]) if split else f)
 
 
+def _slice_of_tail(f, bb):
+    """Origins of the slice whose last element is read (constant index 1 from the end) in block bb."""
+    out = []
+
+    def walk(o):
+        if isinstance(o, dict):
+            if "l" in o and "p" in o and isinstance(o["p"], list):
+                for i, e in enumerate(o["p"]):
+                    if isinstance(e, dict) and e.get("cidx") == 1 and e.get("from_end"):
+                        out.extend(L.trace(f, {"l": o["l"], "p": o["p"][:i]}, PLUMBING + VEC_VIEW)[0])
+                return
+            for v in o.values():
+                walk(v)
+        elif isinstance(o, list):
+            for v in o:
+                walk(v)
+    walk(f.blocks[bb]["st"])
+    walk(f.blocks[bb]["term"])
+    # one origin per distinct source
+    seen, uniq = set(), []
+    for x in out:
+        k = (x.kind, x.bb, x.proj, x.info.get("index"))
+        if k not in seen:
+            seen.add(k)
+            uniq.append(x)
+    return uniq
+
+
 def r2a(ctx):
     c14.r1_codec(ctx, "C15.R2a")
 
@@ -181,6 +231,9 @@ _CHAIN = """        let next_page = items
             })
             .transpose()?;
 """
+
+_SLICE_PAT = ("        let %s = items.as_slice() else {\n            return Ok(ResultsPage { next_page: None, items });\n        };\n"
+              "        let token = %s;\n        Ok(ResultsPage { next_page: %s, items })")
 
 SELFTEST = [
     {"name": "token-from-first-item", "kind": "mutant", "edits": [(PG, "            .last()\n            .map(|last_item| {", "            .first()\n            .map(|last_item| {")],
@@ -225,6 +278,19 @@ SELFTEST = [
     {"name": "token-helper-and-then", "kind": "benign",
      "edits": [(PG, _CHAIN, "        let next_page = match items.last() {\n            None => None,\n            Some(tail) => Some(Ok(get_page_selector(tail, scan_params)).and_then(serialize_page_token)?),\n        };\n")],
      "why": "behaviour-preserving: arms reordered, the token built by `Ok(selector).and_then(serialize_page_token)` (fn item as the combinator argument)"},
+    {"name": "slice-pattern-let-else", "kind": "benign",
+     "edits": [(PG, _CHAIN + "\n" + _BUILD, _SLICE_PAT % ("[.., tail]", "serialize_page_token(get_page_selector(tail, scan_params))?", "Some(token)"))],
+     "why": "behaviour-preserving: `let [.., tail] = items.as_slice() else { return <page without token> }`: the last element is read by a constant-index projection from the end "
+            "after the pattern's `len >= 1` test, not by a last() call; the rule finds the last item and the test of its existence by role"},
+    {"name": "slice-pattern-first-element", "kind": "mutant", "expect": ["C15.R1"],
+     "edits": [(PG, _CHAIN + "\n" + _BUILD, _SLICE_PAT % ("[tail, ..]", "serialize_page_token(get_page_selector(tail, scan_params))?", "Some(token)"))],
+     "why": "twin of slice-pattern-let-else: the token is derived from the first item of the page"},
+    {"name": "slice-pattern-needs-two-items", "kind": "mutant", "expect": ["C15.R1"],
+     "edits": [(PG, _CHAIN + "\n" + _BUILD, _SLICE_PAT % ("[_, .., tail]", "serialize_page_token(get_page_selector(tail, scan_params))?", "Some(token)"))],
+     "why": "twin of slice-pattern-let-else: the pattern needs two items, so a one-item page gets no token and the scan stops early"},
+    {"name": "slice-pattern-token-error-becomes-none", "kind": "mutant", "expect": ["C15.R1"],
+     "edits": [(PG, _CHAIN + "\n" + _BUILD, _SLICE_PAT % ("[.., tail]", "serialize_page_token(get_page_selector(tail, scan_params)).ok()", "token"))],
+     "why": "twin of slice-pattern-let-else: a token that cannot be issued silently ends the scan"},
     {"name": "map_or-token-error-becomes-none", "kind": "mutant",
      "edits": [(PG, _CHAIN, "        let next_page = items.last().map_or(Ok::<_, HttpError>(None), |final_item| {\n            Ok(serialize_page_token(get_page_selector(final_item, scan_params)).ok())\n        })?;\n")],
      "expect": ["C15.R1"], "why": "twin of map_or-ok-none: a token that cannot be issued silently ends the scan"},
@@ -232,4 +298,6 @@ SELFTEST = [
      "edits": [(PG, _CHAIN, "        let next_page = items.last().filter(|_| items.len() > 1).map_or(Ok(None), |final_item| {\n            serialize_page_token(get_page_selector(final_item, scan_params)).map(Some)\n        })?;\n")],
      "expect": ["C15.R1"], "why": "twin of map_or-ok-none: a one-item page gets no token"},
 ]
+LEVEL_TEXT += (" The last item and the test of its existence are found by role: `items.last()` tested as an Option, or the slice pattern `[.., x]` on items (element at constant index 1 from the end, "
+               "read after the pattern's `len >= 1` test; lib_c14.emptiness_tests / indexed_reads); any other element accessor (call or projection) is reported.")
 LEVEL_TEXT += " Also (R2d = C14.R4): a presented token is looked up in the owned query map and is the only thing consulted when present."
